@@ -32,23 +32,24 @@ j1 = os.path.join(d, "a.xml")
 run(["-n", sys.argv[1] if len(sys.argv) > 1 else "12"], j1)
 p, f = parse(j1)
 missing = stable - p
-if missing:
-    files = sorted({"src/bluesky/tests/" + m.split("::")[0].split(".")[-1] + ".py" for m in missing
-                    if "_vendor" not in m})
-    j2 = os.path.join(d, "b.xml")
-    run(files, j2)
-    p2, f2 = parse(j2)
-    p |= p2
+def ids_of(missing):
+    return sorted({"src/bluesky/tests/" + m.split("::")[0].split(".")[-1] + ".py::" + m.split("::", 1)[1].split("[")[0]
+                   for m in missing if "_vendor" not in m})
+
+
+# tests missing after the parallel pass (port-bound zmq tests, timing-sensitive SIGINT tests on a loaded machine) get
+# up to two serial attempts, by test id
+for attempt in range(2):
+    if not missing:
+        break
+    jn = os.path.join(d, f"r{attempt}.xml")
+    ids = ids_of(missing)
+    if len(ids) > 150:  # something systematic: re-run whole files instead
+        ids = sorted({i.split("::")[0] for i in ids})
+    run(ids, jn)
+    pn, fn_ = parse(jn)
+    p |= pn
     missing = stable - p
-    if missing:
-        # timing-sensitive tests (SIGINT, timeouts) are flaky on a loaded machine: one more serial attempt of just those
-        ids = sorted({"src/bluesky/tests/" + m.split("::")[0].split(".")[-1] + ".py::" + m.split("::", 1)[1].split("[")[0]
-                      for m in missing if "_vendor" not in m})
-        j3 = os.path.join(d, "c.xml")
-        run(ids, j3)
-        p3, f3 = parse(j3)
-        p |= p3
-        missing = stable - p
 print(f"stable={len(stable)} passed_now={len(p & stable)} missing={len(missing)}")
 for m in sorted(missing)[:40]:
     print("  MISSING", m)
